@@ -1,7 +1,8 @@
 (* StapledPacketSerializer (serializers/composite.py): two serializers merged, one used for sending and one for
    receiving.  Which stapled class a pair becomes (and therefore which receive paths the stream layer may use) is
-   [stapled_class], REGENERATED from the `match` of StapledPacketSerializer.__new__ (Gen/ParamsC01.v); the methods
-   delegate unchanged to one half (shape checked by the same translator). *)
+   [stapled_class], REGENERATED on every run as the complete table of the dispatch of StapledPacketSerializer.__new__
+   (Gen/ParamsC01.v: the real constructors called on every combination); the methods delegate unchanged to one half
+   (exercised by the kind-30 cases of Run/C01.v). *)
 From Coq Require Import ZArith List.
 From EN Require Import Lib.Bytes Frame.Framer Gen.ParamsC01.
 Import ListNotations.
